@@ -45,6 +45,8 @@ fn mk_bar(sc: &Scenario, term: &Option<SimTerm>) -> ProgressBar {
     };
     let pb = ProgressBar::with_draw_target(len, target);
     let pb = pb.with_finish(finish_kind(sc.c("on_finish"), "fin"));
+    // builder form of set_position
+    let pb = if sc.c("with_pos") == 1 { pb.with_position(sc.c("pos0")) } else { pb };
     pb.set_style(
         ProgressStyle::with_template("{pos}/{len} {percent}% {bar:10} {msg}")
             .unwrap(),
@@ -99,7 +101,7 @@ fn exec_seq(sc: &Scenario) -> Report {
             }
         };
         let mut m = Model {
-            pos: 0,
+            pos: if sc.c("with_pos") == 1 { sc.c("pos0") } else { 0 },
             len: if sc.c("len_known") == 1 {
                 Some(sc.c("len0"))
             } else {
@@ -484,7 +486,7 @@ impl Check for C07 {
         "C07"
     }
     fn rule_text(&self) -> String {
-        "seq: PRNG histories (1..40 ops) of inc/dec/set_position/reset/finish*/abandon*/finish_using_style/update(set_pos,set_len)/set_length/inc_length/dec_length/unset_length/clone/drop with arguments biased to u64 boundaries, hidden and visible bars; after every call position()/length()/is_finished()/ProgressState view/fraction() are compared with a wrapping-u64 + saturating-Option model and every call is wrapped in catch_unwind. sched: 2..8 simulated threads each holding its own clone (or clone of a clone) doing 1..20 inc/dec/tick/get under a seeded random/sticky/PCT scheduler with every atomic load/store/RMW a scheduling point, with and without a steady ticker; oracle = wrapping sum after join + reachable positions. Non-trivial: seq = history of >= 2 ops containing a boundary argument (0 or > 2^62); sched = at least two threads with operations. Distinct = distinct scenario hash.".into()
+        "seq: PRNG histories (1..40 ops) of (optionally with_position at construction) inc/dec/set_position/reset/finish*/abandon*/finish_using_style/update(set_pos,set_len)/set_length/inc_length/dec_length/unset_length/clone/drop with arguments biased to u64 boundaries, hidden and visible bars; after every call position()/length()/is_finished()/ProgressState view/fraction() are compared with a wrapping-u64 + saturating-Option model and every call is wrapped in catch_unwind. sched: 2..8 simulated threads each holding its own clone (or clone of a clone) doing 1..20 inc/dec/tick/get under a seeded random/sticky/PCT scheduler with every atomic load/store/RMW a scheduling point, with and without a steady ticker; oracle = wrapping sum after join + reachable positions. Non-trivial: seq = history of >= 2 ops containing a boundary argument (0 or > 2^62); sched = at least two threads with operations. Distinct = distinct scenario hash.".into()
     }
     fn assumptions(&self) -> Vec<String> {
         vec![
@@ -538,6 +540,10 @@ impl Check for C07 {
             sc.set("on_finish", rng.below(5));
             sc.set("len_known", rng.chance(3, 4) as u64);
             sc.set("len0", boundary_u64(rng));
+            if rng.chance(1, 5) {
+                sc.set("with_pos", 1);
+                sc.set("pos0", boundary_u64(rng));
+            }
             let n = match tier {
                 Tier::Quick => rng.range(1, 25),
                 Tier::Thorough => rng.range(1, 40),
